@@ -79,7 +79,7 @@ for _spec, _groups in C10_SPECS.items():
     for _g in GROUPS:
         if not applicable(_spec, _g):
             continue
-        ob('dataclass/%s/%s' % (_spec, _g), marks=['accept', 'reject'], budget=(100, 400), per_path=(15, 30),
+        ob('dataclass/%s/%s' % (_spec, _g), marks=['accept', 'reject'], budget=(160, 400), per_path=(15, 30),
            exhaustive=(False, False) if (_spec, _g) == ('alias', 'alias') else (True, False),
            thorough_only=_g not in _groups,
            bounds=bounds_text(_spec, _g, 'Schema') + '; lookup strategy solver-picked in the alias group; the same declaration with and without collect_errors (max_errors '
